@@ -1454,6 +1454,7 @@ func (sys *System) ClearLocationStats(ctx *Context, location string) error {
 	defer sys.releaseLocation(ctx, location)
 	if err != nil {
 		Log(ERROR, ctx, "System.ClearLocationStats", "location", location, "error", err)
+		return sys.stats.IncErrors(err)
 	}
 	loc.ClearStats()
 	atomic.AddUint64(&sys.stats.TotalTime, uint64(Now()-then))
